@@ -31,6 +31,7 @@ def oracle(line: str, obs: Obs):
     # why each peer was last disconnected, worked out from the events alone: "DPR" when the peer announced it on the
     # connection that then ended, None once a new connection of the peer has completed its capabilities exchange
     my_reason = {n: None for n in peers}
+    prev_live: dict = {}
     for ev, lines in obs.blocks:
         t = ev.split(" ")
         if t[0] == "rx":
@@ -77,6 +78,21 @@ def oracle(line: str, obs: Obs):
                 elif d["disc"] == "1" and pstate[n]["last_disc"] is None:
                     pstate[n]["last_disc"] = now
                 pstate[n].update(conn=d["conn"], reason=d["reason"], disc=d["disc"])
+        # the peer's connections as the connections themselves show them (dialled under its name / identified as it by the
+        # capabilities exchange) -- independent of the node's own Peer.connection record
+        live_of = {n: [] for n in peers}
+        for k0, d in conns.items():
+            if d["live"] == "1" and d["state"] != "CLOSED":
+                own0 = canon.get(d["name"].lower()) if d["name"] != "-" else canon.get(d.get("ident", "-").lower())
+                if own0 in live_of:
+                    live_of[own0].append(k0)
+        prev_live_before = dict(prev_live)
+        for n in peers:
+            if prev_live.get(n) and not live_of[n] and pstate[n]["conn"] == "-" and before_p[n]["conn"] == "-" \
+                    and t[0] in ("adv", "tick", "rx", "eof", "rerr", "io", "wr"):
+                # the node's record never pointed at that connection: the loss is read off the connection
+                pstate[n]["last_disc"] = now
+            prev_live[n] = bool(live_of[n])
         for n, v in pstate.items():
             # a connection the node itself has marked closed is lost, whatever the peer record still says
             if v["conn"] != "-" and conns.get(v["conn"], {}).get("state") == "CLOSED" and t[0] in ("adv", "tick", "rx", "eof", "rerr"):
@@ -130,7 +146,7 @@ def oracle(line: str, obs: Obs):
         if simple and t[0] in ("adv", "tick") and not stopping:
             for n, p in peers.items():
                 b = before_p[n]
-                due = (p["persistent"] and b["conn"] == "-" and b["last_disc"] is not None
+                due = (p["persistent"] and b["conn"] == "-" and not prev_live_before.get(n) and b["last_disc"] is not None
                        and now - b["last_disc"] >= p["wait"] and not (my_reason.get(n) == "DPR" and not p["always"]) and p["addr"])
                 got = dialled.get(n, 0)
                 if due and got != 1:
